@@ -1,20 +1,20 @@
 /-
   Model of persim/sliced_wasserstein.py (`sliced_wasserstein`), import-free and polymorphic.
 
-      diag_theta = float32([cos(pi/4), sin(pi/4)])                         -- parameter `dd`
+      diag_theta = array([cos(pi/4), sin(pi/4)])        (float64, e37e244)  -- parameter `dd`
       l_theta1   = [dot(diag_theta, x) for x in PD1]
       PD_delta1  = [[x / sqrt(2.0)] * 2 for x in l_theta1]                 -- `diagProj dd s`, s = sqrt 2 (fix 1c74424)
       (before:     [[sqrt(x**2 / 2.0)] * 2 …]  = |x|/sqrt 2                -- `diagProjOld`)
       sw = 0; theta = 0.5; step = 1.0 / M
       for i in range(M):
-          l_theta = float32([cos(theta*pi), sin(theta*pi)])                -- parameter list `dirs` (length M)
+          l_theta = array([cos(theta*pi), sin(theta*pi)])   (float64)          -- parameter list `dirs` (length M)
           V1 = [dot(l_theta,x) for x in PD1] + [dot(l_theta,x) for x in PD_delta2]
           V2 = [dot(l_theta,x) for x in PD2] + [dot(l_theta,x) for x in PD_delta1]
           sw += step * cityblock(sorted(V1), sorted(V2))
           theta += step
 
   The M directions are a *parameter list* of pairs `(cos θ_i, sin θ_i)`; the harness computes them exactly
-  as the code does (accumulated `theta`, cast to float32) and hands them to the driver, the theorems hold
+  as the code does (accumulated `theta`, float64; before /repo e37e244 they were cast to float32) and hands them to the driver, the theorems hold
   for every list of directions.  `M = dirs.length`; `M = 0` is rejected (`1.0 / 0` raises
   `ZeroDivisionError` in the code).  `sqrt` appears only in the old projection.
 -/
